@@ -25,11 +25,10 @@ class C31(C30):
         'physical integer coordinates are recorded at _draw_line/_draw_box/_draw_box_filled (WINDOW float '
         'arithmetic is not modelled)',
     ]
-    PARTIAL = ('sprite format proved for the packed-pixel builder (bpp 1, 2, 4, 8: SCREEN 1, 2, Tandy/PCjr 3-5, '
+    PARTIAL = ('sprite array format proved for the packed-pixel builder (bpp 1, 2, 4, 8: SCREEN 1, 2, Tandy/PCjr 3-5, '
                'Hercules, Olivetti); the planed (EGA SCREEN 7-10) and Tandy SCREEN 6 builders are covered by the '
-               'GET/PUT oracle on the implementation only. PUT XOR twice: proved that the second block equals '
-               'the original contents and that writing it back is the identity; the read-after-write lemma '
-               'that joins them is missing (full statement kept as C31_put_xor_involution_statement)')
+               'GET/PUT oracle on the implementation only (the matrix-level GET+PUT PSET and PUT XOR theorems do '
+               'not depend on the builder)')
     RULE = ('real Session per video adapter in every graphics SCREEN, random screen contents in colours below the '
             'drawing attribute, optional VIEW [SCREEN]; PSET / solid LINE / LINE,B / LINE,BF with the defining '
             'points inside the viewport (any slope and length) compared with the model; GET of random rectangles '
